@@ -342,6 +342,24 @@ func (o *oracle) oracleBuild() {
 				o.failf("%s: decode-then-Encode gives %s, canonical bytes are %s", what, hexs(d.Raw), hexs(fresh))
 			}
 		}
+		// extending a message that was decoded from a datagram with bytes after the declared length (tolerated by
+		// Decode): the added attribute must land right after the declared body and the result must be well-formed
+		{
+			base, battrs := o.randMessage(3, 12)
+			withTrail := append(append([]byte(nil), base...), o.randBytes(1+o.rng.Intn(9))...)
+			e := new(Message)
+			if err := Decode(withTrail, e); err == nil {
+				v := o.randBytes(o.rng.Intn(10))
+				o.guard("Add after decode", func() { e.Add(AttrType(0x7777), v) })
+				// the tolerated alias 0x8020 decodes as 0x0020 in the struct only; the wire bytes are kept
+				wantAttrs := append(append([]refAttr(nil), battrs...), refAttr{typ: 0x7777, value: v})
+				r0, _ := refParse(base)
+				canon := refBuild(r0.method, r0.class, r0.tid, wantAttrs)
+				if !bytes.Equal(e.Raw, canon) {
+					o.failf("Decode(%d bytes + %d trailing) then Add(0x7777,%d): raw %s, expected the declared body followed by the new attribute %s", len(base), len(withTrail)-len(base), len(v), hexs(e.Raw), hexs(canon))
+				}
+			}
+		}
 		// Encode after a failed decode: header length must match the buffer
 		bad := new(Message)
 		if err := Decode(append(append([]byte(nil), fresh[:20]...), 1, 2, 3), bad); err != nil || true {
